@@ -56,12 +56,14 @@ pub struct Instr {
     pub form: Form,
     /// trailing comma inside an o2o list that ends with this instruction
     pub trailing_comma: bool,
+    /// not an o2o instruction of this level (foreign / colliding attribute): never respelled
+    pub fixed: bool,
 }
 
 impl Instr {
     pub fn new(name: &str, ded: Option<&str>, body: &str) -> Instr {
         let form = if has_bare_form(name) { Form::Bare } else { Form::O2o };
-        Instr { name: name.into(), ded: ded.map(|s| s.to_string()), body: body.into(), parens: true, form, trailing_comma: false }
+        Instr { name: name.into(), ded: ded.map(|s| s.to_string()), body: body.into(), parens: true, form, trailing_comma: false, fixed: false }
     }
     pub fn word(name: &str) -> Instr {
         let mut i = Instr::new(name, None, "");
